@@ -133,7 +133,7 @@ def twice(base, chk, routine):
             q = h.point(path, "A")
             args = [v, x, q, x]
         (p,) = h.ex.call(fname, args, path)
-        outs.append(p.heap[v.obj][0])
+        outs.append(h.result(p, v))
         path = p
         path.outcome = None
         path.frames = []
